@@ -74,3 +74,233 @@ class InFloatRange(CContract):
 
     def covers(self, cx, ov, info):
         return [("accepts", lambda r, s: r == 1), ("rejects", lambda r, s: r == 0)]
+
+
+# ---------------------------------------------------------------------------------------------
+# the validate_trait_* family
+# ---------------------------------------------------------------------------------------------
+
+def error_method_hook(api, rec, st, k):
+    """handler.error(object, name, value): the Python-side contract of BaseTraitHandler.error (C01): it always
+    raises TraitError naming the attribute.  (It runs Python code: A-HAVOC applies.)"""
+    if rec[2] != "error":
+        return None
+    s1 = api.havoc(st, "handler.error")
+    return k(NULL, s1.with_exc(EXC["TraitError"]).log(("trait-error", rec[3])))
+
+
+def in_float_range_summary(ex, args, st, k):
+    """call-site use of the contract of in_float_range (InFloatRange above): precondition checked, result by spec"""
+    value, rinfo = args
+    st = ex.cx.require(st, z3.And(value != NULL, A.is_inst(value, "PyFloat_Type"), wf_float_range_info(rinfo)),
+                       "pre@in_float_range:exact-float-and-well-formed-descriptor")
+    r = ex.cx.fresh("in_range", INT)
+    spec = spec_float_range(A.float_val(value), A.tuple_item(rinfo, 1), A.tuple_item(rinfo, 2), A.long_val(A.tuple_item(rinfo, 3)))
+    return k(r, st.assume(z3.Or(r == 0, r == 1), (r == 1) == spec))
+
+
+def own_neutral(st, info, ret):
+    """C18: every reference taken is given back, except the one returned"""
+    if st.own is None:
+        return []
+    o = z3.Const("o!own", Obj)
+    return [("own:reference-neutral", z3.ForAll([o], st.own[o] == info["own0"][o] + z3.If(z3.And(o == ret, ret != NULL), 1, 0)),
+             {}, ("C18",))]
+
+
+def no_stores(st):
+    return [("frame:validation-stores-nothing", z3.BoolVal(not any(r[0] == "store" for r in st.trace)))]
+
+
+class FastValidator(CContract):
+    properties = ("C03", "C01", "C19")
+    own = True
+    side_props = {"valid-deref": ("C18",), "bounds": ("C18",)}
+    assumptions = ("A-API", "A-HAVOC", "A-INT", "A-ALLOC", "handler.error always raises TraitError (Python contract)")
+
+    def configure(self, cx, ex, ov):
+        cx.callmethod_hook = error_method_hook
+        cx.summaries["in_float_range"] = in_float_range_summary
+        trait = z3.Const("trait", Obj)
+
+        def keep(api, before, after):
+            """A-CB(trait-definition-stable): Python code run while a value is being validated (its __float__,
+            __instancecheck__, __eq__ ...) does not modify the trait definition object doing the validation."""
+            fs = []
+            for f in ("py_validate", "handler", "validate", "flags", "default_value_type"):
+                fs.append(api.ex.field_array(after, f)[trait] == api.ex.field_array(before, f)[trait])
+            return after.assume(*fs)
+        cx.havoc_keeps = keep
+
+    def wf(self, tinfo, trait, obj, value):
+        return z3.BoolVal(True)
+
+    def c_setup(self, cx, ex, ov):
+        trait, obj, name, value = z3.Consts("trait obj name value", Obj)
+        st = CSt()
+        tinfo = ex.field_array(st, "py_validate")[trait]
+        handler = ex.field_array(st, "handler")[trait]
+        st = st.assume(trait != NULL, obj != NULL, name != NULL, value != NULL, tinfo != NULL, handler != NULL,
+                       A.is_inst(tinfo, "PyTuple_Type"), self.wf(tinfo, trait, obj, value))
+        info = dict(trait=trait, obj=obj, name=name, value=value, tinfo=tinfo,
+                    witness={"value.type": A.type_of(value), "value.is_None": value == A.NONE, "descriptor.len": A.tuple_len(tinfo)})
+        return st, [trait, obj, name, value], info
+
+    def spec(self, info, ret, st):
+        """-> list of clauses"""
+        raise NotImplementedError
+
+    def c_post(self, cx, ex, ov, info, ret, st):
+        out = [("post:NULL-iff-error-indicator-set", (ret == NULL) == (st.exc != 0))]
+        out += self.spec(info, ret, st)
+        out += own_neutral(st, info, ret)
+        out += no_stores(st)
+        return out
+
+    def covers(self, cx, ov, info):
+        return [("accepts", lambda r, s: r != NULL), ("rejects-with-TraitError", lambda r, s: z3.And(r == NULL, s.exc == EXC["TraitError"]))]
+
+
+def same_object(ret, value):
+    return z3.Implies(ret != NULL, ret == value)
+
+
+@register
+class ValidateTraitType(FastValidator):
+    qualname = "validate_trait_type"
+
+    def wf(self, tinfo, trait, obj, value):
+        n = A.tuple_len(tinfo)
+        return z3.Or(n == 2, n == 3)
+
+    def spec(self, info, ret, st):
+        tinfo, value = info["tinfo"], info["value"]
+        n = A.tuple_len(tinfo)
+        accept = z3.Or(z3.And(n == 3, value == A.NONE), A.subtype(A.type_of(value), A.tuple_item(tinfo, n - 1)))
+        return [("post:accepts-iff-exact-type-test-or-allowed-None", (ret != NULL) == accept),
+                ("post:stores-the-value-itself", same_object(ret, value)),
+                ("post:rejection-is-TraitError", z3.Implies(ret == NULL, st.exc == EXC["TraitError"]))]
+
+
+@register
+class ValidateTraitInstance(FastValidator):
+    qualname = "validate_trait_instance"
+
+    def wf(self, tinfo, trait, obj, value):
+        n = A.tuple_len(tinfo)
+        return z3.Or(n == 2, n == 3)
+
+    def spec(self, info, ret, st):
+        tinfo, value = info["tinfo"], info["value"]
+        n = A.tuple_len(tinfo)
+        isi = z3.Function("isinstance_result", Obj, Obj, INT)(value, A.tuple_item(tinfo, n - 1))
+        accept = z3.Or(z3.And(n == 3, value == A.NONE), isi > 0)
+        return [("post:accepts-iff-isinstance-or-allowed-None", (ret != NULL) == accept),
+                ("post:stores-the-value-itself", same_object(ret, value)),
+                ("post:rejection-is-TraitError", z3.Implies(ret == NULL, st.exc == EXC["TraitError"]))]
+
+
+@register
+class ValidateTraitSelfType(FastValidator):
+    qualname = "validate_trait_self_type"
+
+    def wf(self, tinfo, trait, obj, value):
+        n = A.tuple_len(tinfo)
+        return z3.Or(n == 1, n == 2)
+
+    def spec(self, info, ret, st):
+        tinfo, value, obj = info["tinfo"], info["value"], info["obj"]
+        accept = z3.Or(z3.And(A.tuple_len(tinfo) == 2, value == A.NONE), A.subtype(A.type_of(value), A.type_of(obj)))
+        return [("post:accepts-iff-same-type-as-owner-or-allowed-None", (ret != NULL) == accept),
+                ("post:stores-the-value-itself", same_object(ret, value)),
+                ("post:rejection-is-TraitError", z3.Implies(ret == NULL, st.exc == EXC["TraitError"]))]
+
+
+@register
+class ValidateTraitEnum(FastValidator):
+    qualname = "validate_trait_enum"
+
+    def wf(self, tinfo, trait, obj, value):
+        return A.tuple_len(tinfo) == 2
+
+    def spec(self, info, ret, st):
+        tinfo, value = info["tinfo"], info["value"]
+        member = z3.Function("contains_result", Obj, Obj, INT)(A.tuple_item(tinfo, 1), value) > 0
+        return [("post:accepts-iff-member-of-the-enumeration", (ret != NULL) == member),
+                ("post:stores-the-value-itself", same_object(ret, value)),
+                ("post:rejection-is-TraitError", z3.Implies(ret == NULL, st.exc == EXC["TraitError"]))]
+
+
+@register
+class ValidateTraitMap(FastValidator):
+    qualname = "validate_trait_map"
+
+    def wf(self, tinfo, trait, obj, value):
+        return A.tuple_len(tinfo) == 2
+
+    def spec(self, info, ret, st):
+        tinfo, value = info["tinfo"], info["value"]
+        d = A.tuple_item(tinfo, 1)
+        found = z3.And(z3.Not(z3.Function("dict_lookup_raises", Obj, Obj, z3.BoolSort())(d, value)),
+                       z3.Function("dict_lookup_result", Obj, Obj, Obj)(d, value) != NULL)
+        return [("post:accepts-iff-key-of-the-map", (ret != NULL) == found),
+                ("post:stores-the-value-itself", same_object(ret, value)),
+                ("post:rejection-is-TraitError", z3.Implies(ret == NULL, st.exc == EXC["TraitError"]))]
+
+
+def float_result_clauses(info, ret, st):
+    value = info["value"]
+    exact = A.is_exact(value, "PyFloat_Type")
+    return [("post:exact-float-stored-as-is", z3.Implies(z3.And(exact, ret != NULL, info.get("always_accepts_exact", z3.BoolVal(True))), ret == value)),
+            ("post:result-has-exact-type-float", z3.Implies(ret != NULL, A.is_exact(ret, "PyFloat_Type"))),
+            ("post:TypeError-of-the-conversion-becomes-TraitError", z3.Implies(ret == NULL, st.exc != EXC["TypeError"]))]
+
+
+@register
+class ValidateTraitFloat(FastValidator):
+    qualname = "validate_trait_float"
+
+    def spec(self, info, ret, st):
+        value = info["value"]
+        return float_result_clauses(info, ret, st) + [
+            ("post:every-exact-float-accepted", z3.Implies(A.is_exact(value, "PyFloat_Type"), ret == value))]
+
+    def covers(self, cx, ov, info):
+        return [("accepts", lambda r, s: r != NULL), ("rejects-with-TraitError", lambda r, s: z3.And(r == NULL, s.exc == EXC["TraitError"])),
+                ("propagates-the-conversion-error", lambda r, s: z3.And(r == NULL, s.exc != EXC["TraitError"]))]
+
+
+@register
+class ValidateTraitFloatRange(FastValidator):
+    qualname = "validate_trait_float_range"
+
+    def wf(self, tinfo, trait, obj, value):
+        return wf_float_range_info(tinfo)
+
+    def spec(self, info, ret, st):
+        tinfo, value = info["tinfo"], info["value"]
+        inr = lambda v: spec_float_range(v, A.tuple_item(tinfo, 1), A.tuple_item(tinfo, 2), A.long_val(A.tuple_item(tinfo, 3)))
+        exact = A.is_exact(value, "PyFloat_Type")
+        out = [("post:result-has-exact-type-float", z3.Implies(ret != NULL, A.is_exact(ret, "PyFloat_Type"))),
+               ("post:result-lies-in-the-declared-range", z3.Implies(ret != NULL, inr(A.float_val(ret))), fp_witness(A.float_val(ret))),
+               ("post:exact-float-accepted-iff-in-range", z3.Implies(exact, (ret != NULL) == inr(A.float_val(value))), fp_witness(A.float_val(value))),
+               ("post:exact-float-stored-as-is", z3.Implies(z3.And(exact, ret != NULL), ret == value)),
+               ("post:out-of-range-is-TraitError", z3.Implies(z3.And(exact, ret == NULL), st.exc == EXC["TraitError"])),
+               ("post:TypeError-of-the-conversion-becomes-TraitError", z3.Implies(ret == NULL, st.exc != EXC["TypeError"]))]
+        return out
+
+
+@register
+class ValidateTraitInteger(FastValidator):
+    qualname = "validate_trait_integer"
+
+    def spec(self, info, ret, st):
+        value = info["value"]
+        exact = A.is_exact(value, "PyLong_Type")
+        return [("post:exact-int-stored-as-is", z3.Implies(exact, ret == value)),
+                ("post:result-has-exact-type-int", z3.Implies(ret != NULL, A.is_exact(ret, "PyLong_Type"))),
+                ("post:TypeError-of-the-conversion-becomes-TraitError", z3.Implies(ret == NULL, st.exc != EXC["TypeError"]))]
+
+    def covers(self, cx, ov, info):
+        return [("accepts", lambda r, s: r != NULL), ("rejects-with-TraitError", lambda r, s: z3.And(r == NULL, s.exc == EXC["TraitError"])),
+                ("propagates-the-conversion-error", lambda r, s: z3.And(r == NULL, s.exc != EXC["TraitError"]))]
